@@ -267,19 +267,48 @@ def normalise(n):
 # ---------------------------------------------------------------------------------------------------------------------------------
 # helpers that the reviewed inventory does not know
 
+_INL = [0]
+
+
 def _param_subst(body, params, args):
-    """copy of `body` with every reference to a parameter replaced by the corresponding argument expression."""
+    """copy of `body` with every reference to a parameter replaced by the corresponding argument expression; the locals of the copy get
+    locations of their own (two inlined copies of one helper must not share their locals)."""
     m = {}
     for p, a in zip(params, args):
         if p.get('loc'):
             m[p['loc']] = a
+    _INL[0] += 1
+    k = _INL[0]
+    locs = {}
+    for x in _walk(body):
+        if x.get('k') == 'VarDecl' and x.get('loc'):
+            locs[x['loc']] = _bloc(x['loc'], 100 + k)
 
     def fn(x):
         if x.get('k') == 'DeclRefExpr' and x.get('dloc') in m:
             a = m[x['dloc']]
             return dict(a)
+        if x.get('k') == 'DeclRefExpr' and x.get('dloc') in locs:
+            y = dict(x)
+            y['dloc'] = locs[x['dloc']]
+            return y
         return None
-    return _replace(body, fn)
+    out = _replace(body, fn)
+
+    def reloc(n):
+        if not isinstance(n, dict):
+            return n
+        o = dict(n)
+        if o.get('k') == 'VarDecl' and o.get('loc') in locs:
+            o['loc'] = locs[o['loc']]
+        if o.get('c'):
+            o['c'] = [reloc(c) for c in o['c']]
+        if isinstance(o.get('init'), dict):
+            o['init'] = reloc(o['init'])
+        if o.get('slots'):
+            o['slots'] = {kk: (reloc(v) if isinstance(v, dict) else v) for kk, v in o['slots'].items()}
+        return o
+    return reloc(out)
 
 
 def _returns(body):
